@@ -24,6 +24,7 @@ from .parameters import (
 from .compute_ls_time import compute_ls_time
 from .util import (
     DEFAULT_JITTER,
+    GaussianProcessType,
     object_str,
     object_html,
 )
@@ -554,6 +555,10 @@ class TimeSensitiveDensityEstimator(BaseEstimator):
         x = self.x
         landmarks = self.landmarks
         pre_transformation = self.pre_transformation
+        if self.gp_type == GaussianProcessType.SPARSE_NYSTROEM:
+            # The latent vector lives in the rank-reduced eigenbasis, not in the
+            # Cholesky basis of the landmarks, even if their sizes coincide.
+            pre_transformation = None
         pre_transformation_std = self.pre_transformation_std
         log_density_x = self.log_density_x
         mu = self.mu
